@@ -10,7 +10,7 @@ def parseList (s : String) : Option (List String) :=
 def parseChains (s : String) : Option (List Chain) :=
   if s = "-" then some [] else (s.splitOn "+").mapM Bytes.parse
 
-/-- `addr:jailed:chains` or `addr:~` (no record at the reference context). -/
+/-- `addr:jailed:chains[:status]` or `addr:~` (no record at the reference context). -/
 def parseRec (s : String) : Option (Addr × Option NodeRec) :=
   match s.splitOn ":" with
   | [a, "~"] => do pure ((← Bytes.parse a), none)
@@ -18,7 +18,23 @@ def parseRec (s : String) : Option (Addr × Option NodeRec) :=
     let a ← Bytes.parse a
     let cs ← parseChains cs
     pure (a, some ⟨j = "1", cs⟩)
+  | [a, j, cs, _] => do
+    let a ← Bytes.parse a
+    let cs ← parseChains cs
+    pure (a, some ⟨j = "1", cs⟩)
   | _ => none
+
+/-- The stake status of the real node record (keeper mode): `2` = staked; absent = staked (stub mode
+has no status). -/
+def parseStatus (s : String) : Option (Addr × Nat) :=
+  match s.splitOn ":" with
+  | [a, _, _, st] => do pure ((← Bytes.parse a), (← st.toNat?))
+  | _ => none
+
+def stakedIn (sts : List (Addr × Nat)) (a : Addr) : Bool :=
+  match sts.find? (·.1 == a) with
+  | some (_, st) => st == 2
+  | none => true
 
 def lookupIn (recs : List (Addr × Option NodeRec)) (a : Addr) : Option NodeRec :=
   match recs.find? (·.1 == a) with
@@ -38,8 +54,13 @@ def nodupB (l : List Addr) : Bool :=
 
 def step (_ : Unit) (pre post : List String) : Unit × Verdict :=
   let v : Verdict :=
+    -- keeper mode appends one word `hist:<ops>`: the real keeper history behind the population (for replays)
+    let pre := match pre.reverse with
+      | h :: rest => if h.startsWith "hist:" then rest.reverse else pre
+      | [] => pre
     match pre with
     | ["sess", count, featH, refH, maxch, chain, addrs, recs, keys] =>
+      let statuses : List (Addr × Nat) := if recs = "-" then [] else (recs.splitOn ",").filterMap parseStatus
       match count.toNat?, featH.toInt?, refH.toInt?, maxch.toInt?, Bytes.parse chain,
             (parseList addrs).bind (·.mapM Bytes.parse), (parseList recs).bind (·.mapM parseRec),
             (parseList keys).bind (·.mapM Bytes.parse) with
@@ -69,6 +90,9 @@ def step (_ : Unit) (pre post : List String) : Unit × Verdict :=
                 else if !nodupB ns then some (.propfail "session-duplicate-node" s!"{ctx} impl={impl}")
                 else if !(ns.all fun n => addrs.contains n && eligible cfg n) then
                   some (.propfail "session-ineligible-node" s!"{ctx} impl={impl}")
+                else if !(ns.all (stakedIn statuses)) then
+                  some (.propfail "session-node-not-staked"
+                    s!"{ctx}: a selected node's record is not staked (unstaking/unstaked) at session start: {(ns.filter fun n => !stakedIn statuses n).map Bytes.render}")
                 else none
             | ["insufficient", _] =>
               if count > 0 && nodupB addrs && elig.length ≥ count then
